@@ -163,21 +163,15 @@ def run_query(s, method, line, col, touch_n):
         k = crash_key(e)
         if k.split('@')[1].split('<')[0] == 'helpers.py:wrapper':
             return 'ValueError', None
-        return 'exc', coarse(k)
-    except RecursionError as e:
-        return 'exc', 'RecursionError@' + _rec_tail(e)
+        return 'exc', key_of(e)
     except Exception as e:  # noqa
-        from harness.core import crash_key
-        return 'exc', coarse(crash_key(e))
+        return 'exc', key_of(e)
     try:
         sel = r if len(r) <= touch_n else r[:touch_n - 1] + r[-1:]
         for x in sel:
             touch(x)
-    except RecursionError as e:
-        return 'exc', 'RecursionError@' + _rec_tail(e)
     except Exception as e:  # noqa
-        from harness.core import crash_key
-        return 'exc', coarse(crash_key(e))
+        return 'exc', key_of(e)
     return 'ok', None
 
 
@@ -188,6 +182,23 @@ def _rec_tail(e):
     fr = [f for f in traceback.extract_tb(e.__traceback__) if '/jedi/' in f.filename]
     c = collections.Counter('%s:%s' % (os.path.basename(f.filename), f.name) for f in fr[-60:])
     return sorted(c.items(), key=lambda kv: (-kv[1], kv[0]))[0][0] if c else ''
+
+
+def deep(e):
+    """An exception raised at the bottom of a runaway recursion can have any type (the interpreter limit is hit
+    inside arbitrary code); what matters is the recursion.  > 400 frames = runaway recursion."""
+    n, tb = 0, e.__traceback__
+    while tb is not None:
+        n += 1
+        tb = tb.tb_next
+    return n > 400
+
+
+def key_of(e):
+    from harness.core import crash_key
+    if isinstance(e, RecursionError) or deep(e):
+        return 'RecursionError@' + _rec_tail(e)
+    return coarse(crash_key(e))
 
 
 def coarse(key):
